@@ -7,6 +7,11 @@ use std::alloc::Allocator;
 pub use crate::sym::CAP;
 
 pub fn vec_resize<T: Clone, A: Allocator>(v: &mut Vec<T, A>, new_len: usize, value: T) {
+    if v.capacity() == 0 {
+        // a buffer that starts empty (Default): one allocation of the concrete
+        // harness capacity, then never again
+        v.reserve_exact(CAP);
+    }
     assert!(new_len <= v.capacity(), "STUB: Vec::resize beyond the harness capacity");
     let len = v.len();
     unsafe {
@@ -76,6 +81,10 @@ where
     }
 }
 
-pub fn no_alloc(_layout: std::alloc::Layout) -> *mut u8 {
+pub unsafe fn no_alloc(_layout: std::alloc::Layout) -> *mut u8 {
+    panic!("STUB: heap allocation")
+}
+
+pub unsafe fn no_realloc(_ptr: *mut u8, _layout: std::alloc::Layout, _new_size: usize) -> *mut u8 {
     panic!("STUB: heap allocation")
 }
